@@ -24,6 +24,7 @@ class SocketServer_Multiplex(object):
         self.sock = self.daemon = self.locationStr = None
         self.selector = selectors.DefaultSelector()
         self.shutting_down = False
+        self.combined_servers = []   # servers of other daemons that are served by this loop (see combine_loop)
 
     def init(self, daemon, host, port, unixsocket=None):
         log.info("starting multiplexed socketserver")
@@ -200,8 +201,11 @@ class SocketServer_Multiplex(object):
                         events_per_server[key.data].append(key.fileobj)
                 for server, fileobjs in events_per_server.items():
                     server.events(fileobjs)
-                if not events_per_server:
-                    self.daemon._housekeeping()
+                # every daemon served by this loop gets its housekeeping in every iteration, also when it had no traffic itself
+                # (a server that handled events has just done its own housekeeping at the end of events())
+                for server in [self] + self.combined_servers:
+                    if server not in events_per_server and getattr(server, "daemon", None) is not None:
+                        server.daemon._housekeeping()
             except socket.timeout:
                 pass  # just continue the loop on a timeout
             except KeyboardInterrupt:
@@ -212,3 +216,4 @@ class SocketServer_Multiplex(object):
         for sock in server.sockets:
             self.selector.register(sock, selectors.EVENT_READ, server)
         server.selector = self.selector
+        self.combined_servers.append(server)
